@@ -214,7 +214,14 @@ Fixpoint session_resp (st : list resp_action) (ts : list (list nat))
 
 (* Struct reuse (a producer handing the very same action STRUCT to several
    transactions; no producer of the tree does, every one builds a new struct
-   per call).  Here the code, as it is, is not a function of values: the
+   per call).  VARIANT SWITCH: with patches/C07/fix-F-C07c.patch every merge
+   cell builds a new action, no fold assigns a field of a struct it was
+   handed, and struct reuse IS the value semantics above ([session_req];
+   this is what [run_sess_req] evaluates for both reuse modes, duplicates of a
+   producer inside one transaction included).  [run_ip] / [session_req_ip]
+   below model the UNFIXED code (kept for C07_struct_reuse_unfixed_refuted
+   and C07_struct_reuse_independent_outside_inplace):
+   there the code is not a function of values: the
    accumulator of the fold IS the first non-no-op input struct
    (NoOp.ReqPrioritize(other) returns other) until a merge allocates a new
    one, and ModifyRequest x ModifyHeaders assigns the accumulated struct's
@@ -588,7 +595,9 @@ Definition run_legacy_resp (k : case_legacy_resp) : option (list var) :=
   if vars_eqb (spoe_resp l) ov then None else Some (spoe_resp l).
 
 (* sessions (suites sess_req / sess_resp).  A case: struct reuse (true) or
-   header maps / remove lists shared between fresh structs (false); the store
+   header maps / remove lists shared between fresh structs (false) - both are
+   compared with the value semantics (fixed code, see the variant switch at
+   [run_ip]); the store
    when the session starts; per transaction the producers that fire, the
    resulting action when it was observed (fold over the public methods) and
    the variables observed (of the real routing fold, or the resulting action's
@@ -622,9 +631,9 @@ Fixpoint all2 {A B : Type} (f : A -> B -> bool) (a : list A) (b : list B) : bool
 
 Definition run_sess_req (k : case_sess_req)
   : option (list (req_action * list var) * list req_action) :=
-  let '(reuse, st, ts, fin) := k in
+  let '(_, st, ts, fin) := k in
   let ids := map (fun t => fst (fst t)) ts in
-  let '(rs, st') := if reuse : bool then session_req_ip st ids else session_req st ids in
+  let '(rs, st') := session_req st ids in
   if all2 txn_req_ok ts rs && list_eqb req_eqb st' fin then None
   else Some (map (fun m => (m, encode_req m)) rs, st').
 
